@@ -1,5 +1,9 @@
 import ColoVerif.Proofs.DetOpt
 import ColoVerif.Proofs.DetOptHpwlDirty
+import ColoVerif.Proofs.DetAccepted
+import ColoVerif.Proofs.DetReorderPassHist
+import ColoVerif.Proofs.DetReorderTotal
+import ColoVerif.Proofs.DetSearchTotal
 /-!
 # C05 — detailed placement never worsens wirelength
 
@@ -9,6 +13,15 @@ the whole object `DetailedPlacer = (placement_, xtopo_, ytopo_)` (Model/DetIncr.
 `updateCellPos` exactly as `doSwap / doInsert / runShiftsOnCells / RowReordering::writeback` do.
 
 * the first block is about *any* objective that depends on the cell positions only (`Value`);
+* the `RowReordering` block is about the modelled enumeration itself (Model/DetReorder.lean: `addCells`,
+  `runRegionChoice`, `runOrdering` with `std::next_permutation`, keep-best, `writeback`): every evaluated leaf is
+  the objective of its own write-back, the pass never worsens the objective, on the coordinate vectors and on the
+  two incremental net models alike (`reorder_leaf_faithful`, `reorder_not_worse`, `reorder_preserves_inv`,
+  `reorder_window_on_object`, `reorder_window_registered`, `reorder_pass_accepted`);
+* the search block is about the modelled candidate enumeration (Model/DetSearch.lean, RowNbh.lean): every move
+  `runSwaps` / `runInserts` issue was chosen by the scan inside the `canSwap` / `canInsert` contract and the pass
+  is an accepted history (`scan_calls_within_contract`, `search_pass_accepted`, `history_value_monotone`,
+  `passes_never_fail`);
 * the second block instantiates it with the real one: `value_eq_hpwl_if_orient_kept` (the maintained
   `value()` is `Circuit::hpwl()` of the exported circuit while the export has the orientations the
   models were built with), `optimiser_evaluates_circuit_value`, `hpwl_monotone_orient_kept`.
@@ -105,9 +118,11 @@ theorem accepted_insert_decreases (V : Value) {s t : State} {c r b : Int} {cands
   injection hv with hv
   omega
 
-/-- `RowReordering`: either nothing is written (the state is returned as it is — state equality, not
-only value), or the written leaf was evaluated strictly below the value before the pass -/
-theorem reorder_not_worse (V : Value) (s : State) (cells : List Int) (leaves : List Leaf) :
+/-- the keep-best rule of `RowReordering` on a *given* list of evaluated leaves: either nothing is written
+(the state is returned as it is — state equality, not only value), or the written leaf was evaluated
+strictly below the value before the pass.  (`reorder_not_worse` below is about the leaves the modelled
+enumeration really evaluates.) -/
+theorem reorder_decision_not_worse (V : Value) (s : State) (cells : List Int) (leaves : List Leaf) :
     (s.reorderDecision V cells leaves = .ok s) ∨
     ∃ leaf, leaf ∈ leaves ∧ leaf.value < s.value V ∧
       s.reorderDecision V cells leaves = s.reorderWriteback cells leaf.regions := by
@@ -265,29 +280,6 @@ theorem reorder_pass_from_dirty_models (c : Circuit) (p0 p : Placer) (ops : List
     obtain ⟨e', hq⟩ := dirty_writeback_eq hs dirt cells leaf.regions hd hv e
     exact ⟨e', (reorderWriteback_sync hs e').2, hq.value, fun h => by cases h⟩
 
-/-- a leaf of `RowReordering` whose recorded value is what `runOrdering` reads when it evaluates it:
-the objective with every registered cell at the leaf's position on its region's row -/
-def FaithfulLeaf (V : Value) (s : State) (l : Leaf) : Prop := l.value = s.leafValue V l.regions
-
-/-- one move the optimiser makes: a swap / insert chosen by the acceptance rule (`bestSwap`,
-`bestSwapUpdate`, `bestInsert`), a shift write-back that does not increase the value (optimality of
-lemon's NetworkSimplex: **assumed**, checked on every logged shift), or a `RowReordering` pass
-(keep-best over faithfully evaluated leaves, write back or leave alone) -/
-inductive Accepted (V : Value) : State → State → Prop
-  | swap {s t : State} (k b : Int) (cands : List Int) :
-      s.bestSwapChoice V k cands = some b → s.step (.swap k b) = .ok t → Accepted V s t
-  | insert {s t : State} (k r b : Int) (cands : List Int) :
-      s.bestInsertChoice V k r cands = some b → s.step (.insert k r b) = .ok t → Accepted V s t
-  | shift {s t : State} (mv : List (Int × Int)) :
-      s.step (.shift mv) = .ok t → t.value V ≤ s.value V → Accepted V s t
-  | reorder {s t : State} (cells : List Int) (leaves : List Leaf) :
-      (∀ l ∈ leaves, FaithfulLeaf V s l) → s.reorderDecision V cells leaves = .ok t → Accepted V s t
-
-/-- `s`, then the successive states of a history of accepted moves -/
-inductive History (V : Value) : State → List State → Prop
-  | nil (s : State) : History V s []
-  | cons {s t : State} {rest : List State} : Accepted V s t → History V t rest → History V s (t :: rest)
-
 /-- an accepted move is a (possibly empty) history of the `DetPlace` model and does not increase the
 objective — strictly decreases it for swaps, inserts and written-back reorderings -/
 theorem accepted_not_worse (V : Value) {s t : State} (h : Inv s) (a : Accepted V s t) :
@@ -308,15 +300,181 @@ theorem accepted_not_worse (V : Value) {s t : State} (h : Inv s) (a : Accepted V
     · exact Int.le_of_lt (accepted_insert_decreases V hch e)
     · cases e
   | shift mv e hle => exact ⟨hle, [.shift mv], by simp [State.run, e]⟩
-  | reorder cells leaves hf e =>
-    rcases reorder_not_worse V s cells leaves with h1 | ⟨leaf, hmem, hlt, h2⟩
-    · rw [h1] at e
-      injection e with e; subst e
-      exact ⟨Int.le_refl _, [], rfl⟩
-    · rw [h2] at e
-      refine ⟨?_, [.reorder cells leaf.regions], by simp [State.run, State.step, e]⟩
-      rw [reorderWriteback_value V e, ← hf leaf hmem]
-      exact Int.le_of_lt hlt
+  | reorder w e =>
+    rcases reorderWindow_not_worse V s t w e with rfl | ⟨hlt, cells, regions, e'⟩
+    · exact ⟨Int.le_refl _, [], rfl⟩
+    · exact ⟨Int.le_of_lt hlt, [.reorder cells regions], by simp [State.run, e']⟩
+
+/-! ## `RowReordering`: the enumeration itself (Model/DetReorder.lean) -/
+
+/-- **Every leaf `RowReordering` evaluates is evaluated on its own write-back.**  `rr0` is the object after
+`addCells(window)`; its registered cells are distinct and non-negative.  Then for every leaf of the
+enumeration (`runRegionChoice` / `runOrdering` with `std::next_permutation`, width and row-polarity tests,
+positions packed from `minPos`): the value read at the leaf (`xtopo_.value() + ytopo_.value()` after the
+`updateCellPos` calls of the enumeration) is the objective with the registered cells at the leaf's positions
+(`FaithfulLeaf`), which is the objective of the placement `writeback` produces from that leaf whenever it
+succeeds; the pass is the keep-best decision (strict `<`, started from the value before the pass) over these
+leaves in evaluation order; no `next_permutation` loop runs out of the model's fuel and no `assert` of the
+enumeration fires. -/
+theorem reorder_leaf_faithful (V : Value) (s : State) (w : List Int) (rr0 : RowReord PS)
+    (e0 : addCells s (RowReord.new (s.x, s.y)) w = .ok rr0) (hn : rr0.cells.Nodup) (hnn : ∀ c ∈ rr0.cells, 0 ≤ c) :
+    (∀ leaf ∈ windowLeaves V s rr0, FaithfulLeaf V s leaf ∧
+      ∀ cells t, s.reorderWriteback cells leaf.regions = .ok t → t.value V = leaf.value) ∧
+    s.reorderWindow V w = s.reorderDecision V (sortDesc rr0.cells) (windowLeaves V s rr0) ∧
+    (rr0.run (pureStore V) s).fuelOut = false ∧ (rr0.run (pureStore V) s).assertFail = rr0.assertFail := by
+  obtain ⟨h1, h2, h3, h4⟩ := reorderWindow_decision V s w rr0 e0 hn hnn
+  refine ⟨fun leaf hl => ⟨h2 leaf hl, fun cells t e => ?_⟩, h1, h3, h4⟩
+  rw [reorderWriteback_value V e]
+  exact (h2 leaf hl).symm
+
+/-- **`RowReordering` never worsens the objective** — no hypothesis on the leaves, the window or the
+placement: if `runReorderingOnCells(window)` returns normally, either the placement is exactly the one before
+(state equality) or the objective strictly decreased.  (A write-back that succeeds forces the registered
+cells to be distinct optimised cells, which is what `reorder_leaf_faithful` needs.) -/
+theorem reorder_not_worse (V : Value) (s t : State) (w : List Int) (e : s.reorderWindow V w = .ok t) :
+    t = s ∨ t.value V < s.value V := by
+  rcases reorderWindow_not_worse V s t w e with h | ⟨h, _⟩
+  · exact Or.inl h
+  · exact Or.inr h
+
+/-- **`RowReordering` keeps the invariant of C02**: the pass is the identity or one `reorder` write-back
+of the `DetPlace` model (`inv_step_reorder`). -/
+theorem reorder_preserves_inv (V : Value) {s t : State} (h : Inv s) (w : List Int) (e : s.reorderWindow V w = .ok t) :
+    Inv t ∧ ∃ ops, s.run ops = .ok t := by
+  rcases reorderWindow_not_worse V s t w e with rfl | ⟨_, cells, regions, e'⟩
+  · exact ⟨h, [], rfl⟩
+  · exact ⟨step_inv h e', [.reorder cells regions], by simp [State.run, e']⟩
+
+/-- **The same on the real object.**  `p` is the `DetailedPlacer` reached by any history from its
+construction on `c`; `runReorderingOnCells(window)` — the enumeration driving the two incremental net models
+through `updateCellPos`, then `writeback` — returns `q`, the logged write-back `ops` (hook H3) and the window
+report `info` (hook H3b).  If the registered cells are distinct valid cells (`Inv` + `addCells`:
+Proofs/DetReorderReg.lean), then: its placement is the result of the pass on the coordinate vectors for the real
+objective; `q` is in sync (`value()` = the objective of its placement); replaying the logged write-back on `p`
+gives `q`; without improvement `q = p` (whole object) and nothing is logged; the reported number of leaves, best
+value and decision are those of the enumeration of `reorder_leaf_faithful`, all of whose leaves are faithful. -/
+theorem reorder_window_on_object (c : Circuit) (p0 p q : Placer) (ops0 : List Op) (w : List Int) (ops : List Op)
+    (info : WindowInfo) (h0 : Placer.init c = .ok p0) (hr : p0.run ops0 = .ok p)
+    (e : p.reorderWindow w = .ok (q, ops, info))
+    (hreg : info.cells.Nodup ∧ ∀ k ∈ info.cells, p.pl.validCell k) :
+    p.pl.reorderWindow (circuitValue c) w = .ok q.pl ∧ q.value = q.pl.value (circuitValue c) ∧
+    p0.run (ops0 ++ ops) = .ok q ∧ (info.improvement = false → q = p ∧ ops = []) ∧
+    info.fuelOut = false ∧ info.valueAfter = q.value ∧
+    ∃ rr0 : RowReord PS, addCells p.pl (RowReord.new (p.pl.x, p.pl.y)) w = .ok rr0 ∧
+      info.nbLeaves = (windowLeaves (circuitValue c) p.pl rr0).length ∧
+      info.bestVal = (rr0.run (pureStore (circuitValue c)) p.pl).bestVal ∧
+      info.improvement = (rr0.run (pureStore (circuitValue c)) p.pl).improvement ∧
+      ∀ leaf ∈ windowLeaves (circuitValue c) p.pl rr0, FaithfulLeaf (circuitValue c) p.pl leaf := by
+  have hs := (run_sync ops0 p0 p (init_sync h0).1 hr).1
+  obtain ⟨h1, h2, h3, h4, h5, h6, h7⟩ := reorderWindow_placer c p q w ops info hs e hreg
+  exact ⟨h1, h2.value, run_append hr h3, h4, h5, h6, h7⟩
+
+/-- **The hypothesis of `reorder_window_on_object` holds for the windows the code builds.**  On a placement
+satisfying `Inv`, a window of distinct valid placed cells — such as the windows `runReorderingOnRows` cuts out
+of `rowCells(rows)` (`reorderWindows_ok`, `rowsAbove_ok`) — makes `addCells` register distinct valid cells:
+each region is a run of window cells linked by `cellNext`, two runs never meet. -/
+theorem reorder_window_registered (p q : Placer) (w : List Int) (ops : List Op) (info : WindowInfo) (h : Inv p.pl)
+    (hn : w.Nodup) (hw : ∀ k ∈ w, p.pl.validCell k ∧ p.pl.row k ≠ -1) (e : p.reorderWindow w = .ok (q, ops, info)) :
+    info.cells.Nodup ∧ ∀ k ∈ info.cells, p.pl.validCell k :=
+  windowOk_of_inv h hn hw q ops info e
+
+/-- **`runReordering` as modelled is an accepted history — no hypothesis on the windows.**  `p` reached by any
+history from the construction on `c`, its placement satisfying `Inv` with every optimised cell placed (C02:
+`inv_init`, `inv_run`).  If the modelled `runReordering(maxNbRows, maxNbCells)` — rows `{row} ∪ rowsAbove(row)` of
+`RowNeighbourhood(rows, maxNbRows − 1)`, cells of these rows sorted by (x, index), overlapping windows of
+`maxNbCells` cells, `RowReordering` on each — returns `q` with the write-backs `ops`: `q` is reached from `p` by a
+`History` of accepted moves for the real objective, it is in sync and satisfies `Inv`, and it is what replaying
+`ops0 ++ ops` gives. -/
+theorem reorder_pass_accepted (c : Circuit) (p0 p q : Placer) (ops0 : List Op) (a b : Int) (ops : List Op)
+    (infos : List WindowInfo) (h0 : Placer.init c = .ok p0) (hr : p0.run ops0 = .ok p) (hi : Inv p.pl)
+    (ha : p.pl.allPlaced = true) (e : p.runReordering a b = .ok (q, ops, infos)) :
+    (∃ states, History (circuitValue c) p.pl states ∧ (p.pl :: states).getLast? = some q.pl) ∧
+    q.value = q.pl.value (circuitValue c) ∧ p0.run (ops0 ++ ops) = .ok q ∧ Inv q.pl ∧ q.pl.allPlaced = true := by
+  have hs := (run_sync ops0 p0 p (init_sync h0).1 hr).1
+  obtain ⟨⟨hsq, hist⟩, hrun, hiq, haq⟩ := runReordering_reaches hs hi ((Lg.allPlaced_iff _).1 ha) e
+  exact ⟨hist, hsq.value, run_append hr hrun, hiq, (Lg.allPlaced_iff _).2 haq⟩
+
+/-! ## the candidate enumeration of the local search (Model/DetSearch.lean) -/
+
+/-- **Every primitive the modelled scan issues is inside its contract.**  `runSwaps` / `runInserts` of the
+whole-object model (row neighbourhoods of `RowNeighbourhood`, windows of `nbNeighbours` cells, the
+`bestSwapUpdate` walks): whenever the pass returns, the moves it performed form a `SearchTrace` — each one
+was chosen by the scan (`bestSwapChoice` / `bestInsertChoice`: last candidate strictly below `value()`) among
+the candidates enumerated at that point, `canSwap` / `canInsert` answered true for it in the state it is
+applied to, and the checked step went through.  With `Inv` (C02: `swap_never_throws`, `insert_never_throws`)
+a move with these properties cannot throw. -/
+theorem scan_calls_within_contract (p q : Placer) (a b : Int) (ops : List Op) :
+    (p.runSwaps a b = .ok (q, ops) → SearchTrace p ops q) ∧
+    (p.runInserts a b = .ok (q, ops) → SearchTrace p ops q) ∧
+    (∀ k cands x, p.bestSwapChoice k cands = some x → x ∈ cands ∧ p.pl.canSwap k x = .ok true ∧
+      (Inv p.pl → p.pl.liveCell k = true → p.pl.liveCell x = true → ∃ t, p.pl.step (.swap k x) = .ok t ∧ Inv t)) ∧
+    (∀ k r cands x, p.bestInsertChoice k r cands = some x → x ∈ cands ∧ p.pl.canInsert k r x = .ok true ∧
+      (Inv p.pl → p.pl.liveCell k = true → p.pl.siteOk r x = true → ∃ t, p.pl.step (.insert k r x) = .ok t ∧ Inv t)) := by
+  refine ⟨runSwaps_trace, runInserts_trace, ?_, ?_⟩
+  · intro k cands x h
+    refine ⟨bestSwapChoice_mem h, bestSwapChoice_canSwap h, fun hi l1 l2 => ?_⟩
+    obtain ⟨t, e⟩ := swap_succeeds hi l1 l2 (bestSwapChoice_canSwap h)
+    have e' : p.pl.step (.swap k x) = .ok t := by simp only [State.step, l1, l2, Bool.and_self, if_true]; exact e
+    exact ⟨t, e', step_inv hi e'⟩
+  · intro k r cands x h
+    refine ⟨bestInsertChoice_mem h, bestInsertChoice_canInsert h, fun hi l1 l2 => ?_⟩
+    obtain ⟨t, e⟩ := insert_succeeds hi l1 l2 (bestInsertChoice_canInsert h)
+    have e' : p.pl.step (.insert k r x) = .ok t := by simp only [State.step, l1, l2, Bool.and_self, if_true]; exact e
+    exact ⟨t, e', step_inv hi e'⟩
+
+/-- **The modelled passes never fail.**  `p` reached by any history from the construction on `c`, its
+placement satisfying `Inv` with every optimised cell placed (C02: `inv_init`, `inv_run`).  Then `runSwaps(a, b)`
+and `runInserts(a, b)` (for `nbNeighbours = b ≥ 0`) and `runReordering(a, b)` (any arguments) of the model return
+normally — no C++ exception (`Err.runtime`: `canSwap`/`canInsert`/`canPlace`/`place`/`cellsBetween`), no
+model-only guard, no fuel exhaustion: every scanned cell is a live cell of its row, every chosen move is
+feasible and carried out (`swap_never_throws` / `insert_never_throws`), the `bestSwapUpdate` loops terminate
+because `value() ≥ 0` strictly decreases and the row walk advances, `addCells` finds the end of every run, and
+`place` accepts the kept leaf of `RowReordering` (the enumeration only recurses under the `allocatedWidth` and
+row-polarity tests and packs from `minPos`).  `Inv` holds afterwards.  (`runShifts` is not covered: lemon.) -/
+theorem passes_never_fail (c : Circuit) (p0 p : Placer) (ops0 : List Op) (a b : Int)
+    (h0 : Placer.init c = .ok p0) (hr : p0.run ops0 = .ok p) (hi : Inv p.pl) (ha : p.pl.allPlaced = true) :
+    (0 ≤ b → ∃ q ops, p.runSwaps a b = .ok (q, ops) ∧ Inv q.pl) ∧
+    (0 ≤ b → ∃ q ops, p.runInserts a b = .ok (q, ops) ∧ Inv q.pl) ∧
+    (∃ q ops infos, p.runReordering a b = .ok (q, ops, infos) ∧ Inv q.pl) := by
+  have hs := (run_sync ops0 p0 p (init_sync h0).1 hr).1
+  refine ⟨fun hb => ?_, fun hb => ?_, ?_⟩
+  · obtain ⟨q, ops, e, hq, _, _⟩ := runSwaps_no_error c hs hi a hb
+    exact ⟨q, ops, e, hq⟩
+  · obtain ⟨q, ops, e, hq, _, _⟩ := runInserts_no_error hi a hb
+    exact ⟨q, ops, e, hq⟩
+  · obtain ⟨⟨q, ops, infos⟩, e⟩ := runReordering_total p a b hs hi ((Lg.allPlaced_iff _).1 ha)
+    exact ⟨q, ops, infos, e, (runReordering_reaches hs hi ((Lg.allPlaced_iff _).1 ha) e).2.2.1⟩
+
+/-- **The modelled search passes are accepted histories.**  `p` reached by any history from the construction
+on `c`.  A pass `runSwaps(a, b)` or `runInserts(a, b)` of the model that returns `q` after performing `ops`:
+`q` is reached from `p` by a `History` of accepted moves for the real objective (so
+`hpwl_monotone_orient_kept` applies to it), it is in sync, and it is the object the replay of `ops0 ++ ops`
+gives (so the pass can be followed by another one). -/
+theorem search_pass_accepted (c : Circuit) (p0 p q : Placer) (ops0 : List Op) (a b : Int) (ops : List Op)
+    (h0 : Placer.init c = .ok p0) (hr : p0.run ops0 = .ok p)
+    (e : p.runSwaps a b = .ok (q, ops) ∨ p.runInserts a b = .ok (q, ops)) :
+    (∃ states, History (circuitValue c) p.pl states ∧ (p.pl :: states).getLast? = some q.pl) ∧
+    q.value = q.pl.value (circuitValue c) ∧ p0.run (ops0 ++ ops) = .ok q := by
+  have hs := (run_sync ops0 p0 p (init_sync h0).1 hr).1
+  have tr : SearchTrace p ops q := by
+    rcases e with e | e
+    · exact runSwaps_trace e
+    · exact runInserts_trace e
+  obtain ⟨hsq, hist⟩ := trace_history tr hs
+  exact ⟨hist, hsq.value, run_append hr tr.run⟩
+
+/-- **Value level, all inputs.**  Along any history of accepted moves from a placement satisfying `Inv`, the
+optimiser's objective never increases and `Inv` is kept — whatever happens to the orientations (the
+orientation caveat KF-C05-1 only concerns the step from the objective to `Circuit::hpwl()`). -/
+theorem history_value_monotone (V : Value) {s : State} {states : List State} (h : Inv s) (hist : History V s states) :
+    ∀ t, (s :: states).getLast? = some t → t.value V ≤ s.value V ∧ Inv t := by
+  induction hist with
+  | nil s => intro t ht; simp at ht; subst ht; exact ⟨Int.le_refl _, h⟩
+  | cons a _ ih =>
+    intro u hu
+    obtain ⟨hle, ops, er⟩ := accepted_not_worse V h a
+    obtain ⟨h1, h2⟩ := ih (run_inv h er) u (by simpa [List.getLast?_cons_cons] using hu)
+    exact ⟨Int.le_trans h1 hle, h2⟩
 
 /-- **C05 while orientations are kept.**  `c` is the legalized circuit handed to detailed placement,
 `s0` the placement constructed from it.  Along any history of moves accepted by the optimiser's rules
@@ -360,6 +518,24 @@ theorem hpwl_monotone_orient_kept (c : Circuit) (s0 : State) (states : List Stat
         · exact hst
         · exact Int.le_trans ((List.pairwise_cons.1 pw).1 u hu') hst
   exact key states s0 hinv (Frame.refl s0) (init_orient_kept h0) hist hk
+
+/-- **C05 for a sequence of modelled passes, while orientations are kept.**  `q` is reached from the freshly
+constructed placer by any sequence of passes — `search_pass_accepted`, `reorder_pass_accepted` and accepted
+shifts compose by `Reaches.trans` — i.e. by a `History` for the real objective ending in `q`'s placement.  If
+every state of it exports the orientations of `c`, the HPWL `q` exports is at most the legalized circuit's. -/
+theorem passes_hpwl_not_worse (c : Circuit) (p0 q : Placer) (states : List State) (h0 : Placer.init c = .ok p0)
+    (hinv : Inv p0.pl) (hist : History (circuitValue c) p0.pl states) (hlast : (p0.pl :: states).getLast? = some q.pl)
+    (hk : ∀ t ∈ states, ∀ i, ((exportPlacement t c).cell i).orient = (c.cell i).orient) :
+    (exportPlacement q.pl c).hpwl ≤ c.hpwl := by
+  obtain ⟨hpw, hfirst⟩ := hpwl_monotone_orient_kept c p0.pl states (init_sync h0).2 hinv hist hk
+  rw [← hfirst]
+  cases states with
+  | nil => simp at hlast; rw [← hlast]
+  | cons t rest =>
+    have hmem : q.pl ∈ t :: rest := by
+      have : (t :: rest).getLast? = some q.pl := by simpa [List.getLast?_cons_cons] using hlast
+      exact List.mem_of_getLast? this
+    exact (List.pairwise_cons.1 hpw).1 _ hmem
 
 /-- The proved part of `hpwl_monotone_full_statement` under the name DESIGN.md gives it: this *is*
 `hpwl_monotone_orient_kept`.  Missing with respect to the full statement: histories in which a move
@@ -436,5 +612,61 @@ example : (match Placer.init exC with
        | .ok q => decide (q.xt = p.xt ∧ q.yt = p.yt ∧ q.value = 12)
        | .error _ => false)
     | .error _ => false) = true := by decide
+
+/-! non-vacuity of the `RowReordering` block: three movable cells 0, 1, 3 in one row, cell 0 tied to a fixed pin
+on the right.  `addCells [0, 1, 3]` registers one region with the three (distinct, non-negative) cells; the
+enumeration evaluates 5 leaves (the 6 orders minus the one `next_permutation` starts from); the pass returns a
+strictly better placement (12 → 7); a one-cell window evaluates nothing and returns the placement unchanged. -/
+def exR : Circuit :=
+  { cells := [⟨2, 2, 0, 0, .N, false, false, .ANY⟩, ⟨3, 2, 4, 0, .N, false, false, .ANY⟩, ⟨1, 1, 12, 0, .N, true, false, .ANY⟩,
+              ⟨2, 2, 7, 0, .N, false, false, .ANY⟩],
+    nets := [⟨1, 0, [⟨0, 0, 0⟩, ⟨2, 0, 0⟩]⟩], rows := [⟨⟨0, 10, 0, 2⟩, .N⟩] }
+
+example : (match fromIspdCircuit exR with
+    | .ok s =>
+      (match addCells s (RowReord.new (s.x, s.y)) [0, 1, 3] with
+       | .ok rr0 => decide (rr0.cells.Nodup ∧ (∀ c ∈ rr0.cells, 0 ≤ c) ∧ rr0.regions.length = 1) &&
+                    decide ((windowLeaves (circuitValue exR) s rr0).length = 5)
+       | .error _ => false) &&
+      (match s.reorderWindow (circuitValue exR) [0, 1, 3] with
+       | .ok t => decide (s.value (circuitValue exR) = 12 ∧ t.value (circuitValue exR) = 7 ∧ Inv s ∧ Inv t)
+       | .error _ => false) &&
+      (match s.reorderWindow (circuitValue exR) [1] with
+       | .ok t => decide (t.value (circuitValue exR) = 12 ∧ t.x 0 = s.x 0 ∧ t.x 1 = s.x 1 ∧ t.x 3 = s.x 3)
+       | .error _ => false)
+    | .error _ => false) = true := by decide +kernel
+
+/-! non-vacuity of `reorder_window_on_object`: the same window on the whole object; the report of hook H3b
+(5 leaves, best value 7, improvement) and the hypothesis on the registered cells -/
+example : (match Placer.init exR with
+    | .ok p =>
+      (match p.reorderWindow [0, 1, 3] with
+       | .ok (q, ops, info) =>
+         decide (info.cells = [3, 1, 0] ∧ info.cells.Nodup ∧ (∀ k ∈ info.cells, p.pl.validCell k) ∧ info.nbLeaves = 5 ∧
+                 info.bestVal = 7 ∧ info.improvement = true ∧ info.fuelOut = false ∧ info.assertFail = false ∧
+                 q.value = 7 ∧ ops.length = 1)
+       | .error _ => false)
+    | .error _ => false) = true := by decide +kernel
+
+/-! non-vacuity of `search_pass_accepted` / `scan_calls_within_contract`: `runSwaps(1, 1)` on `exC` performs the
+swap of cells 0 and 1 (value 12 → 9) and `runInserts(1, 1)` an insertion -/
+example : (match Placer.init exC with
+    | .ok p =>
+      (match p.runSwaps 1 1 with
+       | .ok (q, ops) => decide (ops = [.swap 0 1] ∧ q.value = 9)
+       | .error _ => false) &&
+      (match p.runInserts 1 1 with
+       | .ok (q, ops) => decide (ops.length = 1 ∧ q.value < 12)
+       | .error _ => false)
+    | .error _ => false) = true := by decide +kernel
+
+/-! non-vacuity of `reorder_pass_accepted`: `runReordering(1, 3)` on `exR` (Inv, all placed) handles two windows
+([0, 1, 3] and [1, 3]) and writes back one better order -/
+example : (match Placer.init exR with
+    | .ok p => decide (Inv p.pl) && p.pl.allPlaced &&
+      (match p.runReordering 1 3 with
+       | .ok (q, ops, infos) => decide (ops.length = 1 ∧ infos.length = 2 ∧ q.value = 7)
+       | .error _ => false)
+    | .error _ => false) = true := by decide +kernel
 
 end ColoVerif.C05
